@@ -927,6 +927,50 @@ def run(ctx, rep):
             f()
         except Unsupported as u:
             rep.undecided(rule, f"step{i}", f"line {getattr(u.node, 'lineno', 0)}", str(u))
+    # three small structural clauses (round 19)
+    from sa.util import backward_slice as _bs, local_assignments as _la
+    ne = nt = 0
+    for mname, m in sorted(ctx.prog.modules.items()):
+        if not mname.startswith('torchtree.evolution.substitution_model'):
+            continue
+        for fn in [f for f in ast.walk(m.tree) if isinstance(f, ast.FunctionDef)]:
+            cl_ = getattr(fn, '_parent', None)
+            scope = f"{cl_.name}.{fn.name}" if isinstance(cl_, ast.ClassDef) else fn.name
+            defs_ = _la(fn)
+            # (N) whatever is handed to eigen() went through the division by the norm — in every method that (re)builds the decomposition, not only in __init__
+            for c in ast.walk(fn):
+                if isinstance(c, ast.Call) and self_attr(c.func) == 'eigen' and c.args:
+                    ne += 1
+                    normalised = any(isinstance(x, ast.BinOp) and isinstance(x.op, ast.Div) for e_ in _bs(c.args[0], defs_) for x in ast.walk(e_))
+                    rep.check('C04.N', f"{mname.split('.')[-1]}::{scope}::eigen-of-the-normalised-matrix", normalised, where(m, c), {'argument': norm_text(c.args[0])[:80]},
+                              f"{scope} decomposes `{norm_text(c.args[0])[:60]}`, a matrix that was not divided by the normalisation −Σπ_iQ_ii: P(t) built from it runs at the raw "
+                              f"rate of the table (WAG: 5.7 % too fast) — exp(Qt) of a matrix that is not scaled to one substitution per unit time")
+            # (E) time enters p_t as it is: no floor / clamp / absolute value on the branch lengths (P(0) = I and P(s)P(t) = P(s + t) need t itself)
+            if fn.name.startswith('p_t') and len(fn.args.args) > 1:
+                t = fn.args.args[1].arg
+                nt += 1
+                alt = [c for c in ast.walk(fn) if isinstance(c, ast.Call) and isinstance(c.func, ast.Attribute) and c.func.attr in ('clamp', 'clamp_min', 'clamp_max', 'clip', 'abs', 'relu', 'maximum', 'minimum', 'round')
+                       and any(isinstance(x, ast.Name) and x.id == t for x in ast.walk(c))]
+                rep.check('C04.E', f"{mname.split('.')[-1]}::{scope}::time-enters-as-it-is", not alt, where(m, alt[0] if alt else fn), {'alterations': [norm_text(x)[:50] for x in alt]},
+                          f"{scope}: `{norm_text(alt[0])[:50] if alt else ''}` alters the branch lengths before the exponential: P(0) is no longer the identity and P(s)P(t) ≠ P(s + t) "
+                          f"whenever an argument is below the floor")
+    if ne < 2 or nt < 5:
+        rep.incomplete('C04.N', 'round-19-clauses', '', f"only {ne} eigen calls / {nt} p_t methods found")
+    # (B) MG94: each of kappa / alpha / beta multiplies the pairs of ITS class and leaves the others alone (factor one): a select between two parameters gives the pairs
+    # that are in neither class (two or three nucleotides apart) the second parameter
+    try:
+        mg = ctx.classes.get(f"{COD}.MG94").resolve('q')[1]
+        wh = [c for c in ast.walk(mg) if isinstance(c, ast.Call) and (dotted_name(c.func) or '') == 'torch.where' and len(c.args) == 3]
+        params_ = {'kappa', 'alpha', 'beta'}
+        bad_w = [c for c in wh if any(isinstance(x, ast.Name) and x.id in params_ for x in ast.walk(c.args[1])) and any(isinstance(x, ast.Name) and x.id in params_ for x in ast.walk(c.args[2]))]
+        if len(wh) < 2:
+            rep.undecided('C04.B', 'MG94.q::each-parameter-selected-against-one', where(ctx.classes.get(f"{COD}.MG94").module, mg), f"only {len(wh)} selects found in MG94.q")
+        else:
+            rep.check('C04.B', 'MG94.q::each-parameter-selected-against-one', not bad_w, where(ctx.classes.get(f"{COD}.MG94").module, bad_w[0] if bad_w else mg), {'selects': len(wh)},
+                      f"MG94.q selects between two parameters (`{norm_text(bad_w[0])[:60] if bad_w else ''}`): codon pairs that belong to neither class get the second one instead of the "
+                      f"neutral factor 1, so the rate matrix is not the model's")
+    except AttributeError:
+        rep.undecided('C04.B', 'MG94.q::each-parameter-selected-against-one', '', 'MG94.q not found')
     # "single and batched": the entries of a batched rate matrix belong to one sample each.  The polynomial rules above decide one sample; that the samples are kept apart is
     # decided by the C10.P rules on the substitution-model modules (axes addressed from the end, no new first axis on a parameter in the branch chosen by the rank of ANOTHER
     # parameter, no row of the first sample standing in for all)
